@@ -28,6 +28,8 @@ CONSTANTS
   FailSaves = TRUE
   Focus = TRUE
   Record = TRUE
+  Marking = FALSE
+  WindAt = 34
   Gaps = {}
   Bugs = {}
   D = 48
